@@ -318,7 +318,8 @@ theorem fromValue_valueOf : âˆ€ (s : Schema) (v : TVal), fragP false s = true â†
         have : ((n.toNat : Nat) : Int) = n := by omega
         simp [fromValue, FromValue.deInt, FromValue.numberInt, hap, FromValue.visitInt, this, h]
     | _ => simp [wfTV] at h
-  | .f64, v, hf, _ => by simp [fragP] at hf
+  | .f64, v, _, h => by
+    cases v <;> simp_all [wfTV, valueOf, fromValue, FromValue.numberF64]
   | .f32, v, hf, _ => by simp [fragP] at hf
   | .char, v, _, h => by
     cases v <;> simp_all [wfTV, valueOf, fromValue]
